@@ -129,6 +129,10 @@ func c20Census() Obs {
 				in[m]++
 			}
 		}
+		// a SASL handler that is back in scanner.Scan(): past the shutdown check of its last command
+		if strings.Contains(g, "sasl.(*Server).handleConnection(") && strings.Contains(g, "bufio.(*Scanner).Scan(") {
+			in["sasl.inScan"]++
+		}
 	}
 	fds := -1
 	if ents, err := os.ReadDir("/proc/self/fd"); err == nil {
@@ -139,6 +143,24 @@ func c20Census() Obs {
 
 func init() {
 	register("c20_census", func(w *World, op Op) Obs { return c20Census() })
+
+	// c20_wait_census: poll the census until in[key] == eq (or the deadline): waits for the
+	// observable instead of sleeping a fixed time
+	register("c20_wait_census", func(w *World, op Op) Obs {
+		key, want := op.str("key"), op.num("eq", 0)
+		deadline := time.Now().Add(time.Duration(op.num("timeout_ms", 10000)) * time.Millisecond)
+		for {
+			c := c20Census()
+			v := c["in"].(map[string]int)[key]
+			if v == want {
+				return Obs{"ok": true, "value": v}
+			}
+			if time.Now().After(deadline) {
+				return Obs{"ok": false, "value": v, "in": c["in"]}
+			}
+			time.Sleep(20 * time.Millisecond)
+		}
+	})
 
 	// c20_open: IMAP connection whose server side records + compresses deadlines
 	register("c20_open", func(w *World, op Op) Obs {
@@ -379,6 +401,19 @@ func c20WaitShut(s *c20Server, op Op) Obs {
 	case <-s.shutRet:
 		return Obs{"returned": true, "panic": s.shutPan, "err": s.shutErr, "ms": int(time.Since(t0) / time.Millisecond)}
 	case <-time.After(time.Duration(op.num("timeout_ms", 2000)) * time.Millisecond):
-		return Obs{"returned": false}
+		// not returned (yet): before anything else happens make sure the call has at least closed its
+		// listener (the socket file is removed right after), so that a later dial does not race it
+		closed := false
+		if s.unixPath != "" && s.startErr == "" {
+			deadline := time.Now().Add(10 * time.Second)
+			for time.Now().Before(deadline) {
+				if _, err := os.Stat(s.unixPath); err != nil {
+					closed = true
+					break
+				}
+				time.Sleep(10 * time.Millisecond)
+			}
+		}
+		return Obs{"returned": false, "listener_closed": closed}
 	}
 }
